@@ -4,6 +4,7 @@ import (
 	"crypto/hmac"
 	"crypto/sha512"
 	"encoding/binary"
+	"encoding/hex"
 	"errors"
 	"fmt"
 	"math/big"
@@ -119,6 +120,7 @@ type c04w struct {
 	h        uint64
 	lz1, lz2 int64
 	steps    int64
+	scribble bool // the caller overwrites the key objects returned by ECPrivKey / ECPubKey
 }
 
 func (w *c04w) where() string {
@@ -147,6 +149,7 @@ func (w *c04w) compare(site string, k *hdkeychain.ExtendedKey, r *ref.XKey, note
 		isPriv bool
 		depth  uint8
 		pfp    uint32
+		scrib  []*big.Int
 	)
 	if !c.Call(site+"/accessors", w.where, func() {
 		s = k.String()
@@ -181,6 +184,7 @@ func (w *c04w) compare(site string, k *hdkeychain.ExtendedKey, r *ref.XKey, note
 			err = e
 			if e == nil && p != nil {
 				ser, d, px, py = p.Serialize(), p.D, p.PublicKey.X, p.PublicKey.Y
+				scrib = append(scrib, d, px, py)
 			}
 		}) {
 			c.Evals(1)
@@ -207,6 +211,7 @@ func (w *c04w) compare(site string, k *hdkeychain.ExtendedKey, r *ref.XKey, note
 			err = e
 			if e == nil && p != nil {
 				ser, px, py = p.SerializeCompressed(), p.X, p.Y
+				scrib = append(scrib, px, py)
 			}
 		}) {
 			c.Evals(1)
@@ -217,6 +222,17 @@ func (w *c04w) compare(site string, k *hdkeychain.ExtendedKey, r *ref.XKey, note
 				fail("ecpubkey", "ECPubKey() = %x, BIP32 gives %x", ser, comp)
 			}
 		}
+	}
+	if w.scribble {
+		// the caller tweaks / wipes the key objects it was handed (in place);
+		// the extended key must not be affected
+		defer func() {
+			for _, z := range scrib {
+				if z != nil {
+					z.SetInt64(0)
+				}
+			}
+		}()
 	}
 	h160 := ref.Hash160(comp)
 	for _, n := range c04netList {
@@ -656,7 +672,7 @@ func c04deepCase(c *vf.Ctx, i int) {
 // still equal the BIP32 key of its path after other keys were derived from
 // it, serialised or neutered.
 func c04treeCase(c *vf.Ctx, i int) {
-	w := &c04w{c: c, seed: c04seed(c, i), net: c04netList[i%len(c04netList)]}
+	w := &c04w{c: c, seed: c04seed(c, i), net: c04netList[i%len(c04netList)], scribble: i%2 == 1}
 	type node struct {
 		k    *hdkeychain.ExtendedKey
 		r    *ref.XKey
@@ -741,6 +757,48 @@ func c04treeCase(c *vf.Ctx, i int) {
 		}
 	}
 	c.Inc("tree_walks")
+}
+
+// c04ilCase: derivations whose HMAC-SHA512 left half IL has an aligned 32-bit
+// word that is all zero or all one (listed by cmd/ilscan after scanning all
+// 2^32 child indices of two master keys; about 2^-29 per derivation).  These
+// are the values at which fixed-width limb arithmetic for (IL + k_par) mod n
+// loses a carry or a leading word.  The reference recomputes everything; a
+// wrong table entry only makes the case an ordinary derivation.
+func c04ilCase(c *vf.Ctx, i int) {
+	e := c04ilWords[i%len(c04ilWords)]
+	seed, err := hex.DecodeString(e.Seed)
+	if err != nil {
+		c.Inconclusive("il-table-entry-unusable")
+		return
+	}
+	w := &c04w{c: c, seed: seed, net: c04netList[(i/len(c04ilWords))%len(c04netList)]}
+	k, r := w.master()
+	if r == nil {
+		return
+	}
+	// check the table entry against the reference HMAC
+	{
+		var data [37]byte
+		if e.Index >= c04H {
+			copy(data[1:33], c04pad32(r.Priv))
+		} else {
+			copy(data[:33], r.Pub.Compressed())
+		}
+		binary.BigEndian.PutUint32(data[33:], e.Index)
+		mac := hmac.New(sha512.New, r.ChainCode[:])
+		mac.Write(data[:])
+		il := mac.Sum(nil)[:32]
+		if binary.BigEndian.Uint32(il[4*e.Pos:]) == e.Val {
+			c.Inc(fmt.Sprintf("derivations_with_IL_word_%08x", e.Val))
+		} else {
+			c.Inc("il_table_entry_not_confirmed")
+		}
+	}
+	k, r = w.step(k, r, e.Index, true)
+	for d := 0; d < 2 && r != nil; d++ {
+		k, r = w.step(k, r, c04index(c.R), true)
+	}
 }
 
 func c04errorsCase(c *vf.Ctx, i int) {
@@ -836,6 +894,7 @@ func init() {
 			"stream leadzero: sibling search (HMAC only) for a child scalar with >=1 (7/8 of cases) or >=2 (1/8) leading zero bytes, which is then used for hardened and normal steps, serialisation and neutering; " +
 			"stream pathsdeep: chains to depth 255 (all-hardened, all-normal with a parallel public chain, boundary indices, mixed), then the depth-256 refusal on private and public keys; " +
 			"stream errors: seed lengths 0..15, 65..80 and random illegal lengths on every network; " +
+			"stream il-special-words: the 34 derivations (two master keys, all 2^32 indices scanned by cmd/ilscan) whose IL has an aligned 32-bit word 00000000 or ffffffff, then two more steps below them; " +
 			"stream trees: derivation trees (several children per parent, keys re-read from their own string, neutered copies) in which every node is compared again after later derivations and serialisations of other nodes. " +
 			"A case is non-trivial and distinct per (seed, network, path prefix).",
 		Assumptions: []string{
@@ -853,6 +912,7 @@ func init() {
 			{Name: "leadzero", N: func(t vf.Tier) int { return t.Sz(480, 6400) }, Run: c04leadzeroCase},
 			{Name: "pathsdeep", N: func(t vf.Tier) int { return t.Sz(64, 1200) }, Run: c04deepCase, MaxCaseSec: 120},
 			{Name: "errors", N: func(t vf.Tier) int { return t.Sz(600, 4000) }, Run: c04errorsCase},
+			{Name: "il-special-words", N: func(t vf.Tier) int { return len(c04ilWords) * t.Sz(2, 8) }, Run: c04ilCase},
 			{Name: "trees", N: func(t vf.Tier) int { return t.Sz(1500, 16000) }, Run: c04treeCase},
 		},
 	})
